@@ -27,6 +27,19 @@ func (c *verifInitClient) Get(ctx context.Context, name string) (*api.SecretValu
 	if c.gaveUp {
 		ghostLog("svc.request.after.giving.up")
 	}
+	// the caller of NewStore: the root of whatever context the request was made with (an implementation may derive
+	// per-request contexts from it)
+	caller := verifRootCtx(ctx)
+	if c.flavours {
+		// a request takes time: any amount, also more than whatever per-request patience the code under test has
+		d := nondetMathI64("svc.request.takes.ns")
+		assume(and(d >= 0, d <= 3600000000000))
+		replayHint(or(d == 0, d == 10000000001))
+		verifNowNS += d
+		if !symbolic() && d > 0 {
+			time.Sleep(min(time.Duration(d), 60*time.Second))
+		}
+	}
 	ok := true
 	if c.fails < c.maxFails {
 		if nondetBool("svc.fail") {
@@ -47,13 +60,15 @@ func (c *verifInitClient) Get(ctx context.Context, name string) (*api.SecretValu
 		ghostLog("svc.failed")
 		if c.fails > c.maxFails {
 			// the caller gives up: its context ends, construction must now return promptly
-			if vc, isV := ctx.(*verifCtx); isV {
-				vc.cancelled = true
+			if caller != nil {
+				caller.cancelled = true
 				ghostLog("caller.gaveup")
 			}
 		}
-		if cerr := ctx.Err(); cerr != nil {
+		if caller != nil && caller.expired() {
 			c.gaveUp = true
+		}
+		if cerr := ctx.Err(); cerr != nil {
 			if c.flavours {
 				if nondetBool("svc.error.hides.context.error") {
 					return nil, verifErrInjected // a client whose errors do not wrap the context's
@@ -286,7 +301,12 @@ func verifHarnessC10Misconfig() {
 	verifEnvReset()
 	client := &verifInitClient{svc: map[string]*api.SecretValue{}}
 	ctx := &verifCtx{tag: "init"}
-	switch nondetChoice("case", 3) {
+	switch nondetChoice("case", 4) {
+	case 3:
+		// what NewFileClient hands back together with its error, passed on regardless: a client that is no client
+		var none *FileClient
+		s, err := NewStore(ctx, StoreConfig{Client: none, Secrets: []string{"a"}, Logf: verifLogf, PollInterval: -1})
+		assert("nil-file-client-is-error", and(s == nil, err != nil))
 	case 0:
 		s, err := NewStore(ctx, StoreConfig{Secrets: []string{"a"}, Logf: verifLogf})
 		assert("no-client-is-error", and(s == nil, err != nil))
